@@ -30,7 +30,7 @@ type c14Payload struct {
 	Schemes []string // distinct packetisations (schemes yielding the same chunk sequence are merged)
 	PtrOid  string   // for pointer payloads: the object named
 	Group   string   // class used in fingerprints
-	CoreFor string   // kinds that keep this payload beyond the full-alphabet request positions: "c"=clean, "s"=smudge/dsmudge
+	CoreFor string   // kinds that keep this payload beyond the full-alphabet request positions: "c"=clean, "s"=smudge/dsmudge; upper case = thorough tier only
 }
 
 type c14Root struct {
@@ -54,6 +54,7 @@ type c14Env struct {
 	objS     []byte
 	objE     []byte
 	objM     []byte
+	objS2    []byte
 
 	omu     sync.Mutex
 	objects map[string][]byte // every object content ever seen in a store (oid -> bytes)
@@ -98,7 +99,9 @@ func c14NewEnv() *c14Env {
 	e.objS = gitx.Content("bin", 3000, 2)   // server-only object
 	e.objM = gitx.Content("bin", 2000, 3)   // on no server: batch answers 404 for it
 	e.objE = gitx.Content("bin", 2500, 4)   // listed by batch, storage GET answers 500
+	e.objS2 = gitx.Content("bin", 70000, 6) // second server-only object (named by the non-canonical pointer)
 	e.srv.Put(e.objS)
+	e.srv.Put(e.objS2)
 	e.srv.Put(e.objL)
 	oidE := e.srv.Put(e.objE)
 	e.srv.Hook = func(s *fakelfs.Server, w http.ResponseWriter, r *http.Request, rec *fakelfs.Recorded) bool {
@@ -110,7 +113,7 @@ func c14NewEnv() *c14Env {
 		}
 		return false
 	}
-	for _, o := range [][]byte{e.objL, e.objS, e.objE, e.objM} {
+	for _, o := range [][]byte{e.objL, e.objS, e.objS2, e.objE, e.objM} {
 		e.objects[gitx.Oid(o)] = o
 	}
 
@@ -135,10 +138,10 @@ func c14NewEnv() *c14Env {
 	add("ptrL", "ptr-local", "s", []byte(c14PointerText(e.objL)), e.objL)
 	add("ptrS", "ptr-server-only", "cs", []byte(ptrS), e.objS)
 	add("ptrM", "ptr-download-fails", "s", []byte(c14PointerText(e.objM)), e.objM)
-	add("ptrE", "ptr-download-fails", "s", []byte(c14PointerText(e.objE)), e.objE)
-	add("ptrNC", "ptr-noncanonical", "s", []byte(ptrS+"\n"), e.objS) // non-canonical spelling (extra blank line) of ptrS
-	add("empty", "empty", "", []byte{}, nil)
-	add("small", "small-content", "s", []byte("hello c14\n"), nil)
+	add("ptrE", "ptr-download-fails", "S", []byte(c14PointerText(e.objE)), e.objE)
+	add("ptrNC", "ptr-noncanonical", "s", []byte(c14PointerText(e.objS2)+"\n"), e.objS2) // non-canonical spelling (extra blank line), second server-only object
+	add("empty", "empty", "S", []byte{}, nil)
+	add("small", "small-content", "sC", []byte("hello c14\n"), nil)
 	add("contentS", "object-content", "c", e.objS, nil) // cleaning it puts object S into the local store
 	add("big", "big-content", "", gitx.Content("bin", c14MaxData+1025, 5), nil)
 	add("ptrpad", "ptr-prefixed-content", "", []byte(ptrS+pad+"trailing content\n"), nil) // first 1024 bytes parse as ptrS
@@ -293,7 +296,7 @@ func (e *c14Env) scanStore(repo string) []string {
 }
 
 func (e *c14Env) storeLabel(store []string) string {
-	names := map[string]string{gitx.Oid(e.objL): "L", gitx.Oid(e.objS): "S", gitx.Oid(e.objE): "E", gitx.Oid(e.objM): "M"}
+	names := map[string]string{gitx.Oid(e.objL): "L", gitx.Oid(e.objS): "S", gitx.Oid(e.objS2): "S2", gitx.Oid(e.objE): "E", gitx.Oid(e.objM): "M"}
 	for _, p := range e.payloads {
 		if p.PtrOid == "" {
 			names[gitx.Oid(p.Bytes)] = "c:" + p.Name
